@@ -52,7 +52,20 @@ class Check:
             raise core.AnalysisBroken("self-test: rule %s did not flag its positive example (%s)" % (rule, what))
         self.extra.setdefault("selftests", []).append({"rule": rule, "example": what, "flagged": True})
 
+    def thorough(self):
+        """thorough tier: kill matrix of the property's own mutants (each applied to a scratch copy of the tree, never to /repo)."""
+        from . import mutants
+        km = mutants.run_mutants(self.prop)
+        self.extra["mutants"] = km
+        self.extra["mutants_killed"] = sum(1 for m in km if m["status"].startswith("killed"))
+        self.extra["mutants_survived"] = [m["id"] for m in km if m["status"] == "SURVIVED"]
+        self.extra["mutants_stale"] = [m["id"] for m in km if m["status"] in ("stale", "analysis-broken")]
+        for m in km:
+            print("mutant %-28s %-6s %s" % (m["id"], m["rule"], m["status"]))
+
     def finish(self):
+        if self.tier == "thorough" and not os.environ.get("PSV_NO_MUTANTS"):
+            self.thorough()
         # floors
         counts = {}
         for o in self.obligations:
